@@ -18,6 +18,7 @@ __all__ = [
 import concurrent.futures
 import contextlib
 import dataclasses
+import errno
 import logging
 import os
 import shutil
@@ -484,6 +485,19 @@ def _write_external_data(
             ),
         )
         writer.write()
+        # A write through a file descriptor (ndarray.tofile) can come up short without an
+        # exception when the file system refuses the data (disk full, file size limit):
+        # never replace the destination with a file that is not complete.
+        expected_size = max(
+            (info.offset + info.length for info in external_data_infos), default=0
+        )
+        written_size = os.path.getsize(temporary_path)
+        if written_size < expected_size:
+            raise OSError(
+                errno.EIO,
+                f"Short write: {written_size} of {expected_size} bytes were written",
+                temporary_path,
+            )
         # Windows cannot atomically replace a file while one of its mmap handles
         # is open. Other ExternalTensors are left untouched.
         for tensor in overwritten_tensors:
